@@ -47,10 +47,12 @@ def credentials(seed):
     return user, pw
 
 
+V1S = [102, 103, 151, 160]
+V2S = [203, 200, 201, 202, 210, 211, 220]
 CONFIG_SPACE = [
-    ("version", VERSIONS),
-    ("pretty", [False, True]),
-    ("close", [True, False]),
+    # wire form as ONE dimension, so that every form is one deviation away from the default
+    ("form", [(2, False, True), (2, True, True), (1, False, True), (1, True, True), (1, False, False), (1, True, False), (2, False, False), (2, True, False)]),
+    ("vidx", [0, 1, 2, 3, 4, 5, 6]),
     ("fi", [None, ("ORGONLY", None), ("Org & Co <1>", "fid>9")]),
     ("clientuid", [None, "CLIENT-UID-0123456789"]),
     ("app", [None, ("MYAPP", "0001")]),
@@ -61,8 +63,18 @@ CONFIG_SPACE = [
 
 def configs(k):
     space = [vals for _, vals in CONFIG_SPACE]
+    seen = set()
     for point in deviations(space, k):
-        yield {name: vals[i] for (name, vals), i in zip(CONFIG_SPACE, point)}
+        raw = {name: vals[i] for (name, vals), i in zip(CONFIG_SPACE, point)}
+        major, pretty, close = raw.pop("form")
+        vs = V1S if major == 1 else V2S
+        cfg = dict(raw, version=vs[raw.pop("vidx") % len(vs)], pretty=pretty, close=close)
+        cfg.pop("vidx", None)
+        key = repr(sorted(cfg.items(), key=lambda kv: kv[0]))
+        if key in seen:
+            continue
+        seen.add(key)
+        yield cfg
 
 
 def make_client(cfg, seed):
@@ -471,7 +483,7 @@ def run(ctx):
         "evaluations": tally.counts["evaluations"],
         "distinct_nontrivial": tally.counts["compositions"],
         "rule": ("client configurations within <=2 deviations of the default" if ctx.quick else "full product of client configurations") +
-        " over version (11) x pretty x close_elements x FI {none, ORG, ORG+FID with markup chars} x CLIENTUID x app id/version x language x credentials {plain, all 95 printable "
+        " over wire form (v2/v1 x pretty x end tags, one dimension) x version within the major version x FI {none, ORG, ORG+FID with markup chars} x CLIENTUID x app id/version x language x credentials {plain, all 95 printable "
         "ASCII characters} x request lists: all 156 sequences of length 0..3 over the five statement request kinds (account ids with & < > quotes, 5 date options incl. -5:30, +14:00, "
         "-0:30 and sub-ms, flags) + every single-request flag/date variant (400 per kind, spread over configurations) + account-info, profile and 4 tax requests; all dryrun; "
         "each composition read by the strict reference reader and by the library, both compared with the expected request; distinct_nontrivial = compositions",
